@@ -31,6 +31,11 @@ Loop3(u) == {Cf(<<a, b, c>>, o, "loop3") : a \in Mid(3), b \in Mid(1), c \in {K(
 (* rings in which one component passes its output metadata to every connect call *)
 Ring2Prov(u) == {Cf(<<[a EXCEPT !.oprov = TRUE], b>>, o, "ring2prov") : a \in {x \in Mid(2) : ~x.outown}, b \in Mid(1), o \in Perm2}
 
+(* fan-out whose head passes its output metadata to every connect call while one reader exchanges late *)
+FanProv(u) == {Cf(<<[a EXCEPT !.outown = FALSE, !.oprov = TRUE], b, c, d>>, o, "fanprov") :
+                 a \in HeadC, b \in TailC(1), c \in {x \in Mid(1) : ~x.inown}, d \in TailC(3),
+                 o \in {<<1, 2, 3, 4>>, <<4, 3, 2, 1>>, <<2, 4, 1, 3>>}}
+
 (* components that first supply a guess and later the value refined after their own pull *)
 Ring2Refine(u) == {Cf(<<[a EXCEPT !.refine = TRUE], [b EXCEPT !.refine = rb]>>, o, "ring2refine") :
                      a \in {x \in Mid(2) : x.data = "imm" /\ x.pull}, b \in Mid(1), rb \in BOOLEAN, o \in Perm2}
@@ -39,6 +44,6 @@ Chain3Refine(u) == {Cf(<<a, [b EXCEPT !.refine = TRUE], c>>, o, "chain3refine") 
 
 CSpace(f) ==
   CASE f = "ring2" -> Ring2(0) [] f = "chain3" -> Chain3(0) [] f = "ring3" -> Ring3(0)
-    [] f = "fan" -> Fan(0) [] f = "loop3" -> Loop3(0) [] f = "ring2prov" -> Ring2Prov(0)
+    [] f = "fan" -> Fan(0) [] f = "loop3" -> Loop3(0) [] f = "ring2prov" -> Ring2Prov(0) [] f = "fanprov" -> FanProv(0)
     [] f = "ring2refine" -> Ring2Refine(0) [] f = "chain3refine" -> Chain3Refine(0)
 =============================================================================
